@@ -66,7 +66,7 @@ pub fn f8_cases(tier: &str) -> Vec<([u8; 128], [u8; 64], String)> {
 
 pub fn run(tier: &str, config: &str) -> Report {
     let mut rep = Report::new("C06", tier, config);
-    rep.rule = "(i) F8 through the public jh_x86_64::compressor::Compressor vs the nibble-oriented vref::jh::f8 for {0, all-ones, every one-hot bit of the 1024-bit state, every one-hot bit of the 512-bit block, 64 (thorough 2048) LCG pairs; thorough adds every one-cold state bit and a state-bit x block-bit diagonal}; (ii) 4 variants x every length 0..=4*64+2 (thorough 8*64+2) of three patterns + one-hot messages of 63 and 64 bytes + 4352, 65535, 65536, 70001 bytes; distinct_nontrivial = distinct expected outputs".into();
+    rep.rule = "(i) F8 through the public jh_x86_64::compressor::Compressor vs the nibble-oriented vref::jh::f8 for {0, all-ones, every one-hot bit of the 1024-bit state, every one-hot bit of the 512-bit block, 64 (thorough 2048) LCG pairs; thorough adds every one-cold state bit and a state-bit x block-bit diagonal}; (ii) 4 variants x every length 0..=8*64+2 (thorough 32*64+2) of three patterns + one-hot messages of 63 and 64 bytes + 4352, 65535, 65536, 70001 bytes; distinct_nontrivial = distinct expected outputs".into();
     let t = jh_tables();
     let cases = f8_cases(tier);
     let res: Vec<(usize, Result<[u8; 128], String>, [u8; 128])> = cases
